@@ -335,7 +335,47 @@ func dischargeVC(x *Exec, o *Obligation, opts verifyOpts) (Result, bool) {
 
 // verifyFunc runs the symbolic executor on one function and discharges its obligations.
 func (p *Program) verifyFunc(fn *ssa.Function, fc *FuncContract, opts verifyOpts) *FuncResult {
+	fr := p.verifyFuncWith(fn, fc, opts, nil)
+	if fr.Err == nil || fr.exec == nil || len(fr.exec.renameCands) != 1 {
+		return fr
+	}
+	// A name used by invariants/hints no longer denotes a local and several locals are unmentioned: try each.
+	// Invariants are proof hints, so any binding under which every obligation discharges is a proof.
+	for name, cands := range fr.exec.renameCands {
+		for _, c := range cands {
+			alt := p.verifyFuncWith(fn, fc, opts, map[string]string{name: c})
+			if alt.Err != nil {
+				continue
+			}
+			ok := true
+			for _, o := range alt.Obls {
+				if o.Status != "discharged" && !unclaimedClass(fc, oblClass(o.Name)) {
+					ok = false
+				}
+			}
+			if ok {
+				return alt
+			}
+		}
+	}
+	return fr
+}
+
+func unclaimedClass(fc *FuncContract, class string) bool {
+	if fc == nil {
+		return false
+	}
+	for uc := range fc.Unclaimed {
+		if class == uc || strings.HasPrefix(class, uc+":") || strings.HasPrefix(class, uc+"#") {
+			return true
+		}
+	}
+	return false
+}
+
+func (p *Program) verifyFuncWith(fn *ssa.Function, fc *FuncContract, opts verifyOpts, rename map[string]string) *FuncResult {
 	x := p.newExec(fn, fc, opts)
+	x.renameMap = rename
 	fr := &FuncResult{Key: x.name, exec: x}
 	x.verifyFunction()
 	fr.Paths = x.paths
